@@ -186,6 +186,7 @@ func tourEvent(ev M, conc map[string][]byte, commits []string, contents map[stri
 		contents[tok] = b
 		out["c"] = tok
 		out["mc"] = c
+		out["old"] = true // tour writes keep an old modification time, so nothing can rely on "newer than the index"
 	}
 	if n, ok := out["n"]; ok {
 		out["n"] = toInt(n)
